@@ -19,7 +19,7 @@ def _passengers(rep, r, src):
     if r.get("residue"):
         rep["passenger"].append({"kind": "residue", "rule": ";".join(r["residue"]), "detail": "", "src": src})
 
-def _kgen_shard(shard, n, tier, seed, budget_s, features=(), profile="core", n_programs=None):
+def _kgen_shard(shard, n, tier, seed, budget_s, features=(), profile="core", n_programs=None, strict_passengers=False):
     w = Worker()
     t_end = time.time() + budget_s
     rep = {"violations": [], "evaluations": 0, "distinct": set(), "samples": [], "model_limit": 0, "passenger": [], "trace_lines": 0,
@@ -45,7 +45,12 @@ def _kgen_shard(shard, n, tier, seed, budget_s, features=(), profile="core", n_p
             rep["contexts"] += 1
             if r.get("outcome") == "hang":
                 rep["hangs"] += 1
+            before = len(rep["passenger"])
             _passengers(rep, r, src)
+            if strict_passengers:
+                for pz in rep["passenger"][before:]:
+                    rep["violations"].append({"key": "%s:%s:%s" % (pz["kind"], pz["rule"][:80], sha(text)), "summary": "%s after/while running a generated program: %s %s" % (pz["kind"], pz["rule"], pz["detail"][:120]),
+                                              "case": {"src": src}})
             views[cname] = (real_view(r), src)
             if cname == "top":
                 why = agrees(m, r)
